@@ -277,6 +277,23 @@ impl WorldA {
                 format!("total_supply {} != sum of listed balances {:?}", obs.supply, sum),
             );
         }
+        // C13: "the total supply never exceeds the cap" is about the tokens that exist, not only about the figure
+        // the contract reports: what the listed accounts hold together stays within the cap
+        if let Some((_, Some(cap))) = obs.minter.clone() {
+            let over = match sum {
+                Some(s) => s > cap,
+                None => true,
+            };
+            if over {
+                self.viol(
+                    out,
+                    "C13",
+                    "tokens-in-circulation-above-cap",
+                    json!({}),
+                    format!("the listed accounts hold {:?} tokens, the cap is {} (reported supply {})", sum, cap, obs.supply),
+                );
+            }
+        }
         {
             let mut seen = std::collections::BTreeSet::new();
             for (a, _) in &obs.accounts {
